@@ -111,3 +111,125 @@ package propeller
 //@   loop 1: invariant own_shard: rangeindex >= 0 ==> units[rangeindex].ShardData[0] == encoded[rangeindex]
 //@   loop 1: invariant proof: forall j int :: 0 <= j && j <= rangeindex ==> units[j].MerkleProof == builtTree[j]
 //@   ensures units: result1 == nil ==> len(result0) == len(encoded) && (forall j int :: 0 <= j && j < len(result0) ==> result0[j].Nonce == nonce && int(result0[j].ShardIndex) == j && len(result0[j].ShardData) == 1 && result0[j].MerkleProof == builtTree[j])
+
+// ---- the committee layout ---------------------------------------------------------------------------
+// A scheduler is well formed when there is one shard per non-publisher peer (N-1 shards for N
+// peers), at least one of them a data shard, and the local peer is one of the peers.
+//@ pure func wfScheduler(s *Scheduler) bool = s.numDataShards >= 1 && s.numCodingShards >= 0 && s.numDataShards + s.numCodingShards == len(s.peers) - 1 && 0 <= s.localPeerIDIndex && s.localPeerIDIndex < len(s.peers)
+//@ extern func slices.SortFunc
+//@   modifies x[0..len(x)]
+//@ extern func slices.BinarySearchFunc
+//@   ensures 0 <= result0 && result0 <= len(x) && (result1 ==> result0 < len(x))
+//@ extern func fmt.Errorf
+//@   ensures result != nil
+//@ extern func errors.New
+//@   ensures result != nil
+//@ func NewScheduler
+//@   props C19
+//@   arith int
+//@   requires len(nodes) < 1<<30
+//@   modifies nodes[0..len(nodes)]
+//@   loop 1: invariant idx: 0 <= i && i < len(nodes) - 1
+//@   ensures wf: result1 == nil ==> result0 != nil && wfScheduler(result0)
+//@ func (*Scheduler).publisherIndex
+//@   props C19
+//@   arith int
+//@   requires s != nil
+//@   ensures found: result1 == nil ==> 0 <= result0 && result0 < len(s.peers)
+// A shard index is answered only inside [0, N-1); the peer list is never indexed out of range.
+//@ func (*Scheduler).PeerForShardIndex
+//@   props C19
+//@   arith int
+//@   requires s != nil && wfScheduler(s)
+//@   ensures in_range: result1 == nil ==> int(shardIndex) < s.numDataShards + s.numCodingShards
+//@ func (*Scheduler).ValidateShardOrigin
+//@   props C19
+//@   arith int
+//@   logged
+//@   requires s != nil && wfScheduler(s)
+//@   ensures in_range: result == nil ==> int(shardIndex) < s.numDataShards + s.numCodingShards
+//@   ensures not_from_self: result == nil ==> sender != s.localPeerID && publisher != s.localPeerID
+
+// ---- the unit validator ------------------------------------------------------------------------------
+// A unit is accepted only if its shard index was not accepted before and lies inside the committee's
+// range, its origin is the scheduled one, its single shard's proof verifies (leaf = the proto
+// encoding of the shard data, at the unit's own index) and its signature verifies or equals the one
+// verified before. A rejected unit changes nothing; no unit makes the validator fail (panic).
+//@ ghost var proofOK bool
+//@ extern func github.com/NethermindEth/juno/consensus/propeller/merkle.(*Proof).Verify
+//@   logged as ProofVerify
+//@   sets proofOK = result
+//@ ghost var sigErr error
+//@ func VerifyMessageSignature
+//@   trusted
+//@   logged as VerifySig
+//@   sets sigErr = result
+//@ ghost var sameSig bool
+//@ extern func bytes.Equal
+//@   logged as BytesEqual
+//@   sets sameSig = result
+//@ func (*UnitValidator).verifyDataShards
+//@   props C19
+//@   arith int
+//@   logged
+//@   requires v != nil && unit != nil
+//@   assigns proofOK, calls_ProofVerify, arg_ProofVerify_root, arg_ProofVerify_leaf, arg_ProofVerify_index
+//@   callsite Verify@*: the_units_own_leaf_and_index: len(unit.ShardData) == 1 && $2 == protoLeaf(unit.ShardData[0]) && $3 == uint32(unit.ShardIndex) && $0.Siblings == unit.MerkleProof.Siblings
+//@   ensures verified: result == nil ==> len(unit.ShardData) == 1 && calls_ProofVerify == old(calls_ProofVerify) + 1 && proofOK
+//@ func (*UnitValidator).verifySignature
+//@   props C19
+//@   arith int
+//@   logged
+//@   requires v != nil && unit != nil
+//@   modifies v.verifiedSignature
+//@   assigns sigErr, sameSig, calls_VerifySig, calls_BytesEqual, arg_VerifySig_pubKey, arg_VerifySig_root, arg_VerifySig_committeeID, arg_VerifySig_nonce, arg_VerifySig_signature, arg_BytesEqual_a, arg_BytesEqual_b
+//@   callsite VerifyMessageSignature@*: the_units_own_fields: $0 == v.publisherPubKey && $1 == &unit.MessageRoot && $2 == &unit.CommitteeID && $3 == unit.Nonce && $4 == unit.Signature
+//@   callsite Equal@*: against_the_verified_one: $0 == v.verifiedSignature && $1 == unit.Signature
+//@   ensures checked: result == nil ==> (old(v.verifiedSignature) != nil && calls_BytesEqual == old(calls_BytesEqual) + 1 && sameSig) || (old(v.verifiedSignature) == nil && calls_VerifySig == old(calls_VerifySig) + 1 && sigErr == nil && v.verifiedSignature == unit.Signature)
+//@   ensures rejected_keeps: result != nil ==> v.verifiedSignature == old(v.verifiedSignature)
+//@ ghost var accepted mathint
+//@ func (*UnitValidator).Validate
+//@   props C19
+//@   arith int
+//@   logged
+//@   sets accepted = ite(result == nil, accepted + 1, accepted)
+//@   requires v != nil && unit != nil && v.scheduler != nil && wfScheduler(v.scheduler) && v.receivedShards != nil
+//@   modifies maps
+//@   modifies v.verifiedSignature
+//@   assigns proofOK, sigErr, sameSig, calls_ProofVerify, arg_ProofVerify_root, arg_ProofVerify_leaf, arg_ProofVerify_index, calls_VerifySig, calls_BytesEqual, arg_VerifySig_pubKey, arg_VerifySig_root, arg_VerifySig_committeeID, arg_VerifySig_nonce, arg_VerifySig_signature, arg_BytesEqual_a, arg_BytesEqual_b, calls_verifyDataShards, arg_verifyDataShards_unit, calls_verifySignature, arg_verifySignature_unit, calls_ValidateShardOrigin, arg_ValidateShardOrigin_sender, arg_ValidateShardOrigin_publisher, arg_ValidateShardOrigin_shardIndex
+//@   callsite ValidateShardOrigin@*: the_units_own_origin: $1 == sender && $2 == unit.Publisher && $3 == unit.ShardIndex
+//@   ensures in_range: result == nil ==> int(unit.ShardIndex) < v.scheduler.numDataShards + v.scheduler.numCodingShards && len(unit.ShardData) == 1
+//@   ensures first_time: result == nil ==> !old(in(v.receivedShards, unit.ShardIndex)) && in(v.receivedShards, unit.ShardIndex)
+//@   ensures others_kept: forall k ShardIndex :: k != unit.ShardIndex ==> (in(v.receivedShards, k) <==> old(in(v.receivedShards, k)))
+//@   ensures rejected_changes_nothing: result != nil ==> (in(v.receivedShards, unit.ShardIndex) <==> old(in(v.receivedShards, unit.ShardIndex))) && v.verifiedSignature == old(v.verifiedSignature)
+//@   ensures every_check_made: result == nil ==> calls_ValidateShardOrigin == old(calls_ValidateShardOrigin) + 1 && calls_verifyDataShards == old(calls_verifyDataShards) + 1 && calls_verifySignature == old(calls_verifySignature) + 1 && arg_verifyDataShards_unit == unit && arg_verifySignature_unit == unit
+
+// ---- the receiving stage: rebuild exactly at the threshold -------------------------------------------
+// The stage counts a unit once per accepted (validated, first-time) unit, stores it at its own
+// index (in range because it was validated), and attempts reconstruction as soon as - and only
+// when - the number of accepted units equals the build threshold (the number of data shards),
+// with the scheduler's shard counts and the local index.
+//@ func (*subprocessor).broadcastUnit
+//@   trusted
+//@   logged
+//@ func extractKey
+//@   trusted
+//@ extern func context.Context.Done
+//@ extern func context.Context.Err
+//@ func (*subprocessor).beforeMessageBuiltStage
+//@   props C19
+//@   arith int
+//@   nosafe nil chan
+//@   requires s != nil && s.scheduler != nil && wfScheduler(s.scheduler) && s.validator.scheduler == s.scheduler && s.validator.receivedShards != nil
+//@   requires local_in_range: int(s.localShardIndex) < s.scheduler.numDataShards + s.scheduler.numCodingShards
+//@   requires small: len(s.scheduler.peers) < 1<<20
+//@   recvfrom s.unitsChan: value.unit != nil
+//@   modifies *
+//@   assigns accepted, recovered, builtTree, calls_RecoverData, calls_MerkleNew, arg_RecoverData_shards, arg_RecoverData_numDataShards, arg_RecoverData_parity, arg_MerkleNew_leaves, proofOK, sigErr, sameSig, calls_ProofVerify, arg_ProofVerify_root, arg_ProofVerify_leaf, arg_ProofVerify_index, calls_VerifySig, calls_BytesEqual, arg_VerifySig_pubKey, arg_VerifySig_root, arg_VerifySig_committeeID, arg_VerifySig_nonce, arg_VerifySig_signature, arg_BytesEqual_a, arg_BytesEqual_b, calls_verifyDataShards, arg_verifyDataShards_unit, calls_verifySignature, arg_verifySignature_unit, calls_ValidateShardOrigin, arg_ValidateShardOrigin_sender, arg_ValidateShardOrigin_publisher, arg_ValidateShardOrigin_shardIndex, calls_Validate, arg_Validate_unit, arg_Validate_sender, calls_broadcastUnit, arg_broadcastUnit_unit
+//@   loop 1: invariant counted: unitCount == accepted - old(accepted)
+//@   loop 1: invariant bounds: 0 <= unitCount && unitCount <= s.scheduler.numDataShards
+//@   loop 1: invariant slots: len(unitsReceived) == s.scheduler.numDataShards + s.scheduler.numCodingShards
+//@   loop 1: invariant stable: s.scheduler == old(s.scheduler) && wfScheduler(s.scheduler) && s.validator.scheduler == s.scheduler && s.validator.receivedShards != nil && s.localShardIndex == old(s.localShardIndex)
+//@   loop 1: invariant validated: forall i int :: 0 <= i && i < len(unitsReceived) && unitsReceived[i] != nil ==> &unitsReceived[i].ShardData != &s.validator.verifiedSignature && len(unitsReceived[i].ShardData) >= 1
+//@   callsite ConstructMessageFromUnits@*: exactly_at_the_threshold: accepted - old(accepted) == s.scheduler.numDataShards
+//@   callsite ConstructMessageFromUnits@*: with_the_committee_layout: $1 == s.localShardIndex && $2 == s.scheduler.numDataShards && $3 == s.scheduler.numCodingShards
